@@ -280,7 +280,7 @@ package render
 //@ spec lip3r(s sdf.SDF3, a v3.Vec, b v3.Vec) = sq(s.Evaluate(a) - s.Evaluate(b)) <= a.Sub(b).Length2()
 
 //@ func dcache3.evaluate
-//@   property C07
+//@   property C07 C06
 //@   id cache
 //@   modular
 //@   requires forall k v3i.Vec :: cacheinv3(dc, k)
